@@ -18,12 +18,16 @@ import (
 type attempt struct {
 	Kind  string // dial-fail connect-write-fail connack-eof connack-refused connack-flags connack-sp-clean not-connack resend-fail success
 	Arg   int    // byte offset, return code, flag byte, bytes before EOF
+	Flags int    // flag byte next to a refusing return code
 	Phase string // when a request gets issued: "" dial handshake resend after
 	Long  bool   // hold the phase for 60 ms real time
 	Req   string // Publish Subscribe Ping PublishAtLeastOnce
 }
 
 func (a attempt) String() string {
+	if a.Flags != 0 {
+		return fmt.Sprintf("%s(%d,flags=%#x)%s", a.Kind, a.Arg, a.Flags, map[bool]string{true: "+" + a.Req + "@" + a.Phase, false: ""}[a.Phase != ""])
+	}
 	return fmt.Sprintf("%s(%d)%s", a.Kind, a.Arg, map[bool]string{true: "+" + a.Req + "@" + a.Phase, false: ""}[a.Phase != ""])
 }
 
@@ -44,6 +48,8 @@ func genHistory(c *run.Ctx) []attempt {
 			a.Arg = r.Intn(4)
 		case "connack-refused":
 			a.Arg = 1 + r.Intn(255)
+			// a return code 1-255 is a refusal whatever the flag byte says
+			a.Flags = []int{0, 0, 0, 1, 2, 0x80, 0xfe, 0xff}[r.Intn(8)]
 		case "connack-flags":
 			a.Arg = []int{2, 3, 0x80, 0xff, 0x10}[r.Intn(5)]
 		case "resend-fail":
@@ -119,7 +125,7 @@ func runHistory(c *run.Ctx, h []attempt, cc configCase, pending int) {
 			cn.EndInboundLocked(-1, io.EOF)
 			return nil
 		case "connack-refused":
-			return wire.Connack(false, byte(a.Arg))
+			return []byte{0x20, 2, byte(a.Flags), byte(a.Arg)}
 		case "connack-flags":
 			return []byte{0x20, 2, byte(a.Arg), 0}
 		case "connack-sp-clean":
@@ -144,6 +150,20 @@ func runHistory(c *run.Ctx, h []attempt, cc configCase, pending int) {
 		return sim.PointAction{}
 	}
 	failSecondStage := map[int]bool{}
+	// resend-fail with Arg 8 or 9: the Persistence fails the Load of the first
+	// record instead of the connection failing a write
+	loadFailed := map[int]bool{}
+	w.Store.Fail = func(op string, key uint, n int) bool {
+		if op != "load" || key < 0x8000 || key > 0xffff || !resendActive || cur < 0 || cur >= len(h) {
+			return false
+		}
+		a := h[cur]
+		if a.Kind != "resend-fail" || a.Arg < 8 || loadFailed[cur] {
+			return false
+		}
+		loadFailed[cur] = true
+		return true
+	}
 	w.WritePlan = func(cn *sim.Conn, p []byte) sim.WriteDecision {
 		ai, known := connOf[cn.Idx]
 		if !known {
@@ -177,7 +197,7 @@ func runHistory(c *run.Ctx, h []attempt, cc configCase, pending int) {
 					second = false // this first packet is of that stage already
 				}
 			}
-			if a.Kind == "resend-fail" && !second {
+			if a.Kind == "resend-fail" && !second && a.Arg < 8 {
 				dd = sim.WriteDecision{Accept: min(a.Arg, len(p)-1), Then: "error"}
 			}
 			failSecondStage[cn.Idx] = second
@@ -642,6 +662,11 @@ func runHistory(c *run.Ctx, h []attempt, cc configCase, pending int) {
 		}
 		if !accepted && !cn.Closed() {
 			c.Violate("failed-connection-left-open", fmt.Sprintf("conn %d (attempt %d: %s) was not closed", cn.Idx, ai, attemptName(h, ai, known)), nil)
+		}
+		if accepted && !cn.Closed() && cn.Idx < len(w.Conns) {
+			// the client went on to another connection: whatever made it leave
+			// this one (a failed resend, a lost connection), it must not stay open
+			c.Violate("failed-connection-left-open", fmt.Sprintf("conn %d (attempt %d: %s) was accepted, then left for a later connection, and never closed", cn.Idx, ai, attemptName(h, ai, known)), nil)
 		}
 		if accepted {
 			everAccepted = true
